@@ -473,7 +473,7 @@ def save_replay(pid, name, files):
     for k, v in files.items():
         dst = os.path.join(d, k)
         os.makedirs(os.path.dirname(dst), exist_ok=True)
-        if isinstance(v, str) and v.startswith("@"):
+        if isinstance(v, str) and v.startswith("@/") and "\n" not in v and os.path.exists(v[1:]):
             if os.path.isdir(v[1:]):
                 shutil.copytree(v[1:], dst, dirs_exist_ok=True, symlinks=True)
             else:
